@@ -71,6 +71,8 @@ pub enum K {
     Collect,
     UnwindScope,
     Twin,
+    EventNew,
+    AddEventFrom,
 }
 
 #[derive(Clone)]
@@ -237,6 +239,8 @@ const W_SAMPLING: &[(K, u64)] = &[
 ];
 
 const W_ATTACH: &[(K, u64)] = &[
+    (K::EventNew, 3),
+    (K::AddEventFrom, 4),
     (K::Root, 6),
     (K::Child, 10),
     (K::ChildLocal, 4),
@@ -277,6 +281,8 @@ const W_STATE: &[(K, u64)] = &[
 ];
 
 const W_SCOPES: &[(K, u64)] = &[
+    (K::EventNew, 3),
+    (K::AddEventFrom, 4),
     (K::UnwindScope, 4),
     (K::Root, 5),
     (K::Child, 6),
@@ -313,6 +319,8 @@ const W_CTX: &[(K, u64)] = &[
 ];
 
 const W_LAZY: &[(K, u64)] = &[
+    (K::EventNew, 3),
+    (K::AddEventFrom, 4),
     (K::UnwindScope, 4),
     (K::Root, 8),
     (K::Noop, 6),
@@ -353,6 +361,8 @@ const W_ASYNC: &[(K, u64)] = &[
 ];
 
 const W_API: &[(K, u64)] = &[
+    (K::EventNew, 3),
+    (K::AddEventFrom, 4),
     (K::UnwindScope, 3),
     (K::Root, 8),
     (K::Noop, 3),
@@ -444,6 +454,8 @@ const W_SETS: &[(K, u64)] = &[
 ];
 
 const W_TIMES: &[(K, u64)] = &[
+    (K::EventNew, 3),
+    (K::AddEventFrom, 4),
     (K::Collect, 5),
     (K::Root, 6),
     (K::Child, 8),
@@ -533,6 +545,8 @@ pub fn profile(prop: &str) -> Profile {
         },
         "C10" => Profile {
             prop: "C10",
+            reentrant_pct: 25,
+            props_pct: 35,
             callers: (0, 2),
             ops: (20, 90),
             cancelable_pct: 20,
@@ -546,6 +560,8 @@ pub fn profile(prop: &str) -> Profile {
         },
         "C11" => Profile {
             prop: "C11",
+            reentrant_pct: 25,
+            props_pct: 35,
             callers: (0, 2),
             cancelable_pct: 20,
             weights: W_CTX,
@@ -1218,6 +1234,28 @@ impl<'a> Gen<'a> {
                 let f = self.rng.below(crate::corpus::NTWINS as u64) as u8;
                 let arg = (self.ops.len() as u32) * 8 + self.rng.below(8) as u32;
                 self.push(t, Op::Twin { f, arg, slot })
+            }
+            K::EventNew => {
+                let ev = self.new_slot();
+                let n = self.nprops();
+                let inner = self.maybe_inner(n);
+                self.push_inner(t, Op::EventNew { ev, n }, inner)
+            }
+            K::AddEventFrom => {
+                let evs: Vec<Slot> = self
+                    .model
+                    .slots
+                    .iter()
+                    .enumerate()
+                    .filter_map(|(i, s)| if let SlotM::Event(..) = s { Some(i as Slot) } else { None })
+                    .collect();
+                if evs.is_empty() {
+                    return false;
+                }
+                let ev = *self.rng.pick(&evs);
+                let live = self.live_spans();
+                let slot = if live.is_empty() || self.rng.pct(60) { None } else { Some(*self.rng.pick(&live)) };
+                self.push(t, Op::AddEventFrom { slot, ev })
             }
             K::TeardownLate => self.push(t, Op::TeardownCalls { early: false }),
             K::LocalBurst => {
